@@ -166,7 +166,10 @@ impl VarResolve for ExistingConst {
     ) -> Result<Expression, LintErrorPos> {
         let v = self.opt_v.clone().unwrap();
         let q = qualifier_of_const_variant(&v);
-        if name.is_bare_or_of_type(q) {
+        if extra.element == ExprContext::Assignment {
+            // cannot assign to a constant (a constant whose name has a dot gets this far)
+            Err(LintError::DuplicateDefinition.at_pos(extra.pos))
+        } else if name.is_bare_or_of_type(q) {
             // resolve to literal expression
             Ok(const_variant_to_expression(v))
         } else {
